@@ -6,30 +6,52 @@ use rand::Rng;
 use serde_json::{json, Value};
 use std::collections::{BTreeMap, HashMap};
 
-type Omh = ProbOrdMinHash2<FnvHasher>;
+/// ProbOrdMinHash2 behind a hasher-independent interface ("fnv": FnvHasher, "nohash": the crate's identity hasher)
+trait OmhDyn {
+    fn hash_set(&mut self, d: &[u64]) -> Vec<u64>;
+    fn store(&self) -> (Vec<f64>, Vec<u64>);
+    fn set_seed(&mut self, s: u64);
+}
+impl<H: std::hash::Hasher + Default> OmhDyn for ProbOrdMinHash2<H> {
+    fn hash_set(&mut self, d: &[u64]) -> Vec<u64> {
+        ProbOrdMinHash2::<H>::hash_set(self, d)
+    }
+    fn store(&self) -> (Vec<f64>, Vec<u64>) {
+        self.verif_store()
+    }
+    fn set_seed(&mut self, s: u64) {
+        self.verif_set_seed(s)
+    }
+}
+fn new_dyn(hasher: &str, m: usize, l: usize) -> Box<dyn OmhDyn> {
+    match hasher {
+        "nohash" => Box::new(ProbOrdMinHash2::<probminhash::nohasher::NoHashHasher>::new(m as u32, l)),
+        _ => Box::new(ProbOrdMinHash2::<FnvHasher>::new(m as u32, l)),
+    }
+}
 
 fn fkey(x: f64) -> u64 {
     let b = x.to_bits();
     if b >> 63 == 0 { b | (1 << 63) } else { !b }
 }
 
-fn new_pinned(m: usize, l: usize, seed: u64) -> Omh {
-    let mut o = Omh::new(m as u32, l);
-    o.verif_set_seed(seed);
+fn new_pinned(hasher: &str, m: usize, l: usize, seed: u64) -> Box<dyn OmhDyn> {
+    let mut o = new_dyn(hasher, m, l);
+    o.set_seed(seed);
     o
 }
 
 /// race table of every occurrence of `elem` up to multiplicity c.  An auxiliary instance with l' = k fed k copies
 /// keeps every point of every occurrence (no position is full before the last copy), so the store holds, per position,
 /// the values of occurrences 1..k; the value that is new with respect to k-1 copies belongs to occurrence k.
-fn pair_tables(m: usize, elem: u64, c: usize, seed: u64) -> Vec<Vec<f64>> {
+fn pair_tables(hasher: &str, m: usize, elem: u64, c: usize, seed: u64) -> Vec<Vec<f64>> {
     let mut res: Vec<Vec<f64>> = (0..c).map(|_| vec![f64::NAN; m]).collect();
     let mut prev: Vec<Vec<u64>> = vec![Vec::new(); m];
     for k in 1..=c {
-        let mut ok = new_pinned(m, k, seed);
+        let mut ok = new_pinned(hasher, m, k, seed);
         let d: Vec<u64> = vec![elem; k];
         let _ = ok.hash_set(&d);
-        let (vals, _) = ok.verif_store();
+        let (vals, _) = ok.store();
         for pos in 0..m {
             let cur: Vec<u64> = vals[pos * k..(pos + 1) * k].iter().map(|v| v.to_bits()).collect();
             let mut newv = cur.clone();
@@ -80,7 +102,10 @@ fn record(a: &Args) {
                 mult[e] = mult[e].max(c[e]);
             }
         }
-        let r = Run { m, l, seed: rng.random::<u64>(), elems: (0..nel).map(|_| rng.random::<u64>()).collect() };
+        let hasher = case["hasher"].as_str().unwrap_or("fnv").to_string();
+        let small = case["elems"].as_str().unwrap_or("random") == "small";
+        let base = rng.random_range(0..1000u64);
+        let r = Run { m, l, seed: rng.random::<u64>(), elems: (0..nel).map(|k| if small { base + k as u64 } else { rng.random::<u64>() }).collect() };
         // pair ids: (element e, occurrence k) -> 1-based id
         let mut pid: HashMap<(usize, usize), usize> = HashMap::new();
         let mut pairs: Vec<(usize, usize)> = Vec::new();
@@ -96,7 +121,7 @@ fn record(a: &Args) {
                 if mult[e] == 0 {
                     continue;
                 }
-                let t = pair_tables(r.m, r.elems[e - 1], mult[e], r.seed);
+                let t = pair_tables(&hasher, r.m, r.elems[e - 1], mult[e], r.seed);
                 for k in 0..mult[e] {
                     tabs.push(t[k].clone());
                 }
@@ -130,8 +155,8 @@ fn record(a: &Args) {
         out.line(&json!({"op": "new", "run": run, "m": m, "l": l, "npairs": pairs.len(),
             "pairs": pairs.iter().map(|p| json!([p.0, p.1])).collect::<Vec<_>>(),
             "tab": tabs.iter().map(|t| t.iter().map(|v| keys[&fkey(*v)]).collect::<Vec<i64>>()).collect::<Vec<_>>(),
-            "seed": r.seed.to_string(), "elems": r.elems.iter().map(|e| e.to_string()).collect::<Vec<_>>()}));
-        let mut inst = new_pinned(m, l, r.seed);
+            "seed": r.seed.to_string(), "elems": r.elems.iter().map(|e| e.to_string()).collect::<Vec<_>>(), "hasher": hasher}));
+        let mut inst = new_pinned(&hasher, m, l, r.seed);
         let mut dict: HashMap<Vec<u64>, u64> = HashMap::new();
         for s in &seqs {
             let data: Vec<u64> = s.iter().map(|e| r.elems[*e - 1]).collect();
@@ -140,7 +165,7 @@ fn record(a: &Args) {
             let order: Vec<usize> = s.iter().map(|e| { c[*e] += 1; pid[&(*e, c[*e])] }).collect();
             let res = catch(|| {
                 let sig = inst.hash_set(&data);
-                let (_, idx) = inst.verif_store();
+                let (_, idx) = inst.store();
                 (sig, idx)
             });
             match res {
@@ -158,7 +183,7 @@ fn record(a: &Args) {
                         let tuple: Vec<u64> = blk.iter().filter(|i| (**i as usize) < data.len()).map(|i| data[*i as usize]).collect();
                         let want = if tuple.len() == l {
                             *dict.entry(tuple.clone()).or_insert_with(|| {
-                                let mut aux = new_pinned(1, l, r.seed);
+                                let mut aux = new_pinned(&hasher, 1, l, r.seed);
                                 aux.hash_set(&tuple)[0]
                             })
                         } else {
@@ -199,13 +224,16 @@ fn freq(a: &Args) {
             let mut hist = vec![0u64; m + 1];
             let mut panics = 0u64;
             // one instance per cell: both sequences must be hashed by the same instance (same instance seed)
-            let r = catch(|| Omh::new(m as u32, l));
+            let hasher = cell["hasher"].as_str().unwrap_or("fnv").to_string();
+            let small = cell["elems"].as_str().unwrap_or("random") == "small";
+            let r = catch(|| new_dyn(&hasher, m, l));
             let mut inst = match r {
                 Ok(i) => i,
                 Err(_) => return json!({"cell": ci, "hist": hist, "panics": trials}),
             };
             for _ in 0..trials {
-                let labels: Vec<u64> = (0..nel).map(|_| rng.random::<u64>()).collect();
+                let base = rng.random::<u64>() >> 8;
+                let labels: Vec<u64> = (0..nel).map(|k| if small { base + k as u64 } else { rng.random::<u64>() }).collect();
                 let da: Vec<u64> = sa.iter().map(|e| labels[*e - 1]).collect();
                 let db: Vec<u64> = sb.iter().map(|e| labels[*e - 1]).collect();
                 match catch(|| (inst.hash_set(&da), inst.hash_set(&db))) {
